@@ -65,3 +65,7 @@ def run(repo, run, tier):
     # 'an ACCEPTED step never increases |y|' presupposes that accepted means solved: the acceptance logic of C02.4, re-judged here
     from .c02 import newton
     newton(repo, run, rule_id="C11.3")
+    # 'the computed step agrees with the scheme's stability function': R(z) above is the function of (A, b) with b = the propagated row; the step must
+    # advance with exactly that row (not, e.g., with the last row of A for tables that merely have c_s = 1)
+    from .c02 import increment
+    increment(repo, run, rule_id="C11.4")
